@@ -33,3 +33,33 @@ Definition c02_countb (maxNum : nat) (result : list tx) : bool := (length result
 Definition c02_gasb (gasRequested acc : N) (result : list tx) : bool := (sum_gas result =? acc) && (acc <=? gasRequested).
 Definition c02_guardb (sess : session) (result : list tx) : bool := forallb (fun t => negb (guarded sess t)) result.
 Definition c02_balanceb (sess : session) (result : list tx) : bool := balance_walkb sess [] result.
+
+(** ---------- C05 / C06: the invariant as a predicate on the OBSERVABLE views ---------- *)
+
+(** what the API shows: Keys, per-sender lists (hashes), the three counters *)
+Record pviews := mkViews {
+  v_keys : list bytes; v_lists : list (bytes * list bytes); v_cntTx : Z; v_numBytes : Z; v_cntSenders : Z }.
+
+Fixpoint lookup_tx (known : list (bytes * tx)) (h : bytes) : option tx :=
+  match known with [] => None | (k, t) :: r => if beqb k h then Some t else lookup_tx r h end.
+
+Definition subsetb (a b : list bytes) : bool := forallb (fun x => existsb (beqb x) b) a.
+
+(** C05 on the views: Keys duplicate-free; Keys and the union of the lists are the same set; every listed
+    transaction sits in the list of its own sender, once; CountTx = |Keys|; NumBytes = sum of sizes;
+    CountSenders = number of senders with a non-empty list *)
+Definition c05_viewsb (known : list (bytes * tx)) (v : pviews) : bool :=
+  let listed := concat (map snd (v_lists v)) in
+  nodupb (v_keys v) && nodupb listed && subsetb (v_keys v) listed && subsetb listed (v_keys v) &&
+  forallb (fun al => forallb (fun h => match lookup_tx known h with Some t => beqb (sender t) (fst al) | None => false end) (snd al)) (v_lists v) &&
+  (v_cntTx v =? Z.of_nat (length (v_keys v)))%Z &&
+  (v_numBytes v =? fold_right (fun h a => (match lookup_tx known h with Some t => size t | None => 0 end + a)%Z) 0%Z (v_keys v))%Z &&
+  (v_cntSenders v =? Z.of_nat (length (filter (fun al => match snd al with [] => false | _ => true end) (v_lists v))))%Z.
+
+(** C06 on the views (count clauses): per-sender count limit; with eviction enabled, the pool exceeds the
+    thresholds by at most one transaction / sender and by at most [lastSize] bytes *)
+Definition c06_viewsb (cfg : config) (lastSize : Z) (v : pviews) : bool :=
+  forallb (fun al => (Z.of_nat (length (snd al)) <=? countPerSenderThreshold cfg)%Z) (v_lists v) &&
+  (negb (evictionEnabled cfg) ||
+   ((v_cntTx v <=? countThreshold cfg + 1)%Z && (v_cntSenders v <=? countThreshold cfg + 1)%Z &&
+    (v_numBytes v <=? numBytesThreshold cfg + lastSize)%Z)).
